@@ -233,7 +233,10 @@ class ProvXMLSerializer(Serializer):
         # Remove all comments.
         for c in xml_doc.xpath("//comment()"):
             p = c.getparent()
-            p.remove(c)
+            # a comment before or after the root element has no parent (and is
+            # not part of the tree that is read below)
+            if p is not None:
+                p.remove(c)
 
         document = prov.model.ProvDocument()
         self.deserialize_subtree(xml_doc, document)
